@@ -23,10 +23,11 @@ LEVEL_TEXT = ("Theorems (Props/C03.v), any field with 1+1/=0: the banded L D L^T
               "the regenerated code); the assembled system is exactly 'A e[x] = s on the node's six edges' with A "
               "the operator of C02, for all interior nodes, widths, coefficients and fields; hence the block "
               "equations hold exactly afterwards, an exact solution is a fixed point, only the six edges are "
-              "written.")
-LEVEL_NOTE = ("Partial: the lifting of the block theorems through the sweep loops (whole-field fixed point, last "
-              "block exact, affinity of the whole sweep) and the three line-relaxation kernels (5x5 block rows, "
-              "blocks_to_amat layout) are NOT proved; they rest on the correspondence of the generated kernels "
+              "written. Lifted through the four loops of the regenerated kernel: for EVERY nu and shape the "
+              "point-wise smoother returns an exact solution unchanged and never writes a tangential boundary "
+              "value.")
+LEVEL_NOTE = ("Partial: 'last block exact' and affinity at the level of the whole sweep, and the three "
+              "line-relaxation kernels (5x5 block rows, blocks_to_amat layout), are NOT proved; they rest on the correspondence of the generated kernels "
               "with the compiled ones and on the searcher (manufactured solutions for all lr codes 0..7, nu 1..4). "
               "Non-vanishing pivots are a hypothesis (the code's own assumption). The evaluation step of the block "
               "proofs is re-checked by the kernel with the VM (vm_cast). Rounding not modelled.")
